@@ -26,7 +26,7 @@ PROPS = {
         "op": "c15",
         "run_module": "RunC15",
         "n": {"quick": 250, "thorough": 4000},
-        "rule": "cases = direct calls of multiply (ratio strata 0, ~1, 1/x, 1-1/x, random) + estimate_samples_count over a grid of "
+        "rule": "every fourth request case: build_prove_request_content_from_genesis (long fork) against the same model; cases = direct calls of multiply (ratio strata 0, ~1, 1/x, 1-1/x, random) + estimate_samples_count over a grid of "
                 "(last_n, gap) around gap = last_n, last_n+1 and up to 2^63 + sample_blocks on random (start,last) numbers/difficulties "
                 "(1-bit .. 255-bit ranges, numbers near 2^64) with each returned difficulty inverted to its u32 draw + "
                 "build_prove_request_content on a real LightClientProtocol/Storage/Peers with and without a prove state and stored last-N headers; "
@@ -115,7 +115,7 @@ PROPS = {
     },
     "C07": {
         "ops": [("c07", "RunC07", {"quick": 150, "thorough": 3000})],
-        "rule": "worlds with outbound capacity 1..7 (quorum 1..4), 1..capacity peers (proved with probability 0.9), honest vectors and vectors deviating at one index "
+        "rule": "a finalization tick that panics while a quorum of agreeing proven peers exists is class C07-agreement-blocked; worlds with outbound capacity 1..7 (quorum 1..4), 1..capacity peers (proved with probability 0.9), honest vectors and vectors deviating at one index "
                 "or from one index on, delivered as BlockFilterCheckPoints messages of length 0,1,2..6 with aligned / shifted / stale / unaligned start numbers in "
                 "random order through FilterProtocol::received, interleaved with refresh ticks (finalization) over 1..4 rounds; each message and each tick is one "
                 "case compared with Model/CheckPoints.v; oracles: quorum for every finalized value, final values never rewritten, index monotone, contradicting peers banned",
@@ -159,7 +159,7 @@ PROPS = {
     },
     "C06": {
         "ops": [("c06", "RunC06", {"quick": 60, "thorough": 1200}), ("fh", "RunFH", {"quick": 240, "thorough": 4000})],
-        "rule": "op c06 extra scenarios: download order (a pending record straddling block 255/256 and 511/512 whose blocks form a spend chain, bodies delivered shuffled), "
+        "rule": "op c06 substituted-body scenario: GetBlocks answered with the proven header and another body, then with the authentic block; op c06 extra scenarios: download order (a pending record straddling block 255/256 and 511/512 whose blocks form a spend chain, bodies delivered shuffled), "
                 "delayed downloads (answers held until two records are pending, the index judged when the first is completed), long batches with an undecodable tail; "
                 "op fh: peers that announced more than they proved, a forged cached interior with the genuine check point hash at its end (known finding); "
                 "op fh: BlockFilterHashes messages (authentic ranges at every position relative to the finalized / cached check points and to what is stored, "
@@ -175,7 +175,7 @@ PROPS = {
     },
     "C02": {
         "ops": [("c02", "RunC02", {"quick": 60, "thorough": 1500}), ("c06", "RunC06", {"quick": 40, "thorough": 800})],
-        "rule": "op c06 (filter worlds): matched blocks are proven through SendBlocksProof answers that report some hashes missing, and bodies of never-proven "
+        "rule": "op c02 blocks proofs with the requested last header carrying the chain root of a private MMR (blocks-proof-forged-chain-root); op c06 (filter worlds): matched blocks are proven through SendBlocksProof answers that report some hashes missing, and bodies of never-proven "
                 "hashes are sent: nothing unproven may be marked proved or indexed (classes C02-unproven-...); "
                 "whole-client worlds with transaction bodies: fetch_header / fetch_transaction through the RPC implementations for hashes on the proven chain, on another "
                 "branch and unknown; fetch ticks; SendBlocksProof (v0 / v1) and SendTransactionsProof answers honest and mutated (foreign / dropped / extra header, found as "
@@ -198,7 +198,7 @@ PROPS = {
     },
     "C18": {
         "ops": [("c18", "RunC18", {"quick": 80, "thorough": 2000})],
-        "rule": "send_transaction through the real RPC implementation with real script execution (always-success cell as code dep, funding cells fetched earlier): valid "
+        "rule": "mutation relative-since-on-pending-parent; send_transaction through the real RPC implementation with real script execution (always-success cell as code dep, funding cells fetched earlier): valid "
                 "transactions, chains spending pending outputs, byte-identical re-submissions, and one mutation each of a valid one (outputs exceed inputs, capacity below "
                 "occupied, duplicate / unknown / out-of-range input, unknown or missing code dep, immature since, no outputs); pool limits 2..5; peers opening the relay "
                 "protocol (announcements) and GetRelayTransactions; per-event results and the final pool (cycles, peers announced to) compared with Model/Pending.v",
@@ -220,7 +220,7 @@ PROPS = {
     },
     "C17": {
         "ops": [("c17", "RunC17", {"quick": 2, "thorough": 12})],
-        "rule": "whole clients prepared identically (proven peer, two scripts, a pending matched record with all but one body delivered, the next filter batch, a proof for "
+        "rule": "reader cases: get_cells_capacity with the tip, get_transactions / get_cells with filter.script and a prefix query over two registered scripts next to a thread indexing and rolling back a block; whole clients prepared identically (proven peer, two scripts, a pending matched record with all but one body delivered, the next filter batch, a proof for "
                 "a heavier branch outstanding); operations: set_scripts through the RPC implementation, BlockFilters through FilterProtocol, the last SendBlock through "
                 "SyncProtocol, SendLastStateProof (fork switch with rollback) through LightClientProtocol; each alone with the global lock probed (try_write) at every "
                 "database write; every ordered pair (A, B) with A paused on its own thread before each of its writes, B started on a second thread, A resumed; the final "
